@@ -345,7 +345,73 @@ func c08Programs() []c08Prog {
 				{"helper reached through a shared list and directly", "BUILD.dawn", "return x + 1", "return x + 2", true},
 				{"comment", "BUILD.dawn", "L = [helper]", "L = [helper]  # shared", false},
 			}})
+	progs = append(progs, c08ShapePrograms()...)
 	return progs
+}
+
+// c08ShapePrograms: every parameter shape of a function the target calls (positional, defaults, *args, keyword-only
+// parameters with and without defaults in every order, **kwargs) and every capture shape of a closure it calls (0..3
+// captured variables; one never assigned, one assigned after the closure was made, one shared by two closures).  The
+// interpreter's placeholders for "no default" and "no value" are payload of the function that has them (F25/F26, fixed
+// 06af877).  Each program has an edit that must change the fingerprint and a cosmetic one that must not.
+func c08ShapePrograms() []c08Prog {
+	var out []c08Prog
+	cosmetic := c08Mut{"comment before the target", "BUILD.dawn", "@target()", "# cosmetic\n@target()", false}
+	params := []struct{ name, sig, call, sig2, what string }{
+		{"positional", "a", "1", "a=1", "give the positional parameter a default"},
+		{"defaults", "a, b=2", "1", "a, b=3", "default value"},
+		{"varargs", "a, *args", "1, 2, 3", "a=0, *args", "give the parameter before *args a default"},
+		{"kwonly-mandatory", "a, *, b", "1, b=2", "a, *, b=7", "give the mandatory keyword-only parameter a default"},
+		{"kwonly-default", "a, *, b=1", "1", "a, *, b=2", "keyword-only default value"},
+		{"kwonly-mandatory-then-default", "a, *, b, c=1", "1, b=2", "a, *, b=7, c=1", "give the mandatory keyword-only parameter a default"},
+		{"kwonly-default-then-mandatory", "a, *, c=1, b", "1, b=2", "a, *, c=1, b=7", "give the mandatory keyword-only parameter a default"},
+		{"kwonly-mandatory-default-mandatory", "a, *, b, c=1, d", "1, b=2, d=3", "a, *, b, c=1, d=9", "give the last mandatory keyword-only parameter a default"},
+		{"kwonly-two-mandatory", "*, b, c", "b=1, c=2", "*, b, c=5", "give one of two mandatory keyword-only parameters a default"},
+		{"varargs-then-kwonly", "a, *args, b, c=1", "1, 2, b=3", "a, *args, b, c=2", "default after a mandatory keyword-only parameter"},
+		{"kwargs", "**kwargs", "x=1", "z=1, **kwargs", "add an optional parameter before **kwargs"},
+		{"kwonly-and-kwargs", "*, b, c=1, **kw", "b=1, z=2", "*, b=0, c=1, **kw", "give the mandatory keyword-only parameter a default"},
+		{"everything", "a, b=2, *args, c, d=4, **kwargs", "1, 2, 3, c=4, z=5", "a, b=2, *args, c=0, d=4, **kwargs", "give the mandatory keyword-only parameter a default"},
+	}
+	for _, p := range params {
+		src := "def h(" + p.sig + "):\n    return 1\n\n@target()\ndef t():\n    print(h(" + p.call + "))\n"
+		out = append(out, c08Prog{Name: "params-" + p.name, Target: "//:t", Files: map[string]string{"BUILD.dawn": src},
+			Muts: []c08Mut{
+				{p.what, "BUILD.dawn", "def h(" + p.sig + "):", "def h(" + p.sig2 + "):", true},
+				{"body of the called function", "BUILD.dawn", "return 1", "return 2", true},
+				cosmetic,
+			}})
+	}
+	tail := "\n@target()\ndef t():\n    print(g)\n"
+	captures := []struct {
+		name, src string
+		muts      []c08Mut
+	}{
+		{"none", "def mk():\n    def f():\n        return 1\n    return f\n\ng = mk()\n", []c08Mut{
+			{"closure body", "BUILD.dawn", "return 1", "return 2", true}}},
+		{"one", "def mk(x):\n    def f():\n        return x\n    return f\n\ng = mk(10)\n", []c08Mut{
+			{"captured value", "BUILD.dawn", "mk(10)", "mk(11)", true}}},
+		{"two", "def mk(x, y):\n    def f():\n        return (x, y)\n    return f\n\ng = mk(10, 20)\n", []c08Mut{
+			{"second captured value", "BUILD.dawn", "mk(10, 20)", "mk(10, 21)", true}}},
+		{"three", "def mk(x, y, z):\n    def f():\n        return (x, y, z)\n    return f\n\ng = mk(10, 20, 30)\n", []c08Mut{
+			{"third captured value", "BUILD.dawn", "mk(10, 20, 30)", "mk(10, 20, 31)", true},
+			{"first captured value", "BUILD.dawn", "mk(10, 20, 30)", "mk(11, 20, 30)", true}}},
+		{"never-assigned", "def mk(flag):\n    def f():\n        return x\n    if flag:\n        x = 1\n    return f\n\ng = mk(False)\n", []c08Mut{
+			{"assign the unassigned captured variable", "BUILD.dawn", "mk(False)", "mk(True)", true}}},
+		{"assigned-later", "def mk():\n    def f():\n        return x\n    x = 5\n    return f\n\ng = mk()\n", []c08Mut{
+			{"value assigned after the closure was made", "BUILD.dawn", "x = 5", "x = 6", true}}},
+		{"shared-by-two", "def mk(v):\n    shared = [v]\n    def get():\n        return shared[0]\n    def put():\n        return shared\n    return (get, put)\n\ng = mk(3)\n", []c08Mut{
+			{"content of the variable two closures share", "BUILD.dawn", "mk(3)", "mk(4)", true},
+			{"body of the second closure", "BUILD.dawn", "return shared\n", "return shared + []\n", true}}},
+		{"never-later-shared", "def mk(flag, v):\n    shared = [v]\n    def f():\n        return (shared, later, never)\n    def h():\n        return (shared, never)\n    later = 7\n    if flag:\n        never = 1\n    return (f, h)\n\ng = mk(False, 3)\n", []c08Mut{
+			{"assign the unassigned captured variable", "BUILD.dawn", "mk(False, 3)", "mk(True, 3)", true},
+			{"value assigned after the closures were made", "BUILD.dawn", "later = 7", "later = 8", true},
+			{"content of the shared variable", "BUILD.dawn", "mk(False, 3)", "mk(False, 4)", true}}},
+	}
+	for _, c := range captures {
+		out = append(out, c08Prog{Name: "captures-" + c.name, Target: "//:t", Files: map[string]string{"BUILD.dawn": c.src + tail},
+			Muts: append(append([]c08Mut{}, c.muts...), cosmetic)})
+	}
+	return out
 }
 
 func TestVerifC08(t *testing.T) {
